@@ -111,10 +111,16 @@ func (h *implHist) handle(slot int) *url.SearchParams {
 	return h.sp[slot]
 }
 
-func slotObs(u *url.Url) []string {
+// slotObs reads every getter. A getter that panics ("a URL on which every getter works") is an outcome, not a crash of the harness.
+func slotObs(u *url.Url) (r []string) {
 	if u == nil {
 		return []string{"-"}
 	}
+	defer func() {
+		if recover() != nil {
+			r = []string{"!getters"}
+		}
+	}()
 	return urlFields(u)
 }
 
@@ -201,7 +207,11 @@ func (h *implHist) step(o Op) (st Step) {
 			}
 		}
 	}()
-	return Step{Extra: extra, A: slotObs(h.u[0]), B: slotObs(h.u[1])}
+	st = Step{Extra: extra, A: slotObs(h.u[0]), B: slotObs(h.u[1])}
+	if (len(st.A) == 1 && st.A[0] == "!getters") || (len(st.B) == 1 && st.B[0] == "!getters") {
+		st.Extra = []string{"!"} // reading the URL after the operation panicked
+	}
+	return st
 }
 
 // pairsNoUpdate reads the parameter list through the hook (Iterate would write the query back).
